@@ -1,5 +1,6 @@
 import DimodModel.Fix
 import DimodModel.PyHist
+import DimodModel.PolyH
 import DimodModel.EnergyVars
 import DimodModel.Wire
 open Wire En
@@ -406,6 +407,19 @@ def step (d : LBqm Rat) (line : String) : LBqm Rat × String :=
       pure s!"{showItems h} {showPairItems j} {showRat o}"
   | ["polytobinary", t] => pure1 do pure (showTerms (polyToBinary (← parseTerms t)))
   | ["polytospin", t] => pure1 do pure (showTerms (polyToSpin (← parseTerms t)))
+  | ["polytohubo", vt, t] => pure1 do
+      let r := polyToHuboOf (vt == "SPIN") (← parseTerms t)
+      pure s!"{showTerms r.1} {showRat r.2}"
+  | ["polytohising", vt, t] => pure1 do
+      let r := polyToHisingOf (vt == "BINARY") (← parseTerms t)
+      pure s!"{showTerms (r.1.map fun e => ([e.1], e.2))} {showTerms r.2.1} {showRat r.2.2}"
+  | ["polyfromhubo", t, off] => pure1 do
+      let o ← if off = "~" then some none else (parseRat? off).map some
+      pure (showTerms (polyFromHubo (← parseTerms t) o))
+  | ["polyfromhising", h, j, off] => pure1 do
+      let o ← if off = "~" then some none else (parseRat? off).map some
+      let hh ← (← parseTerms h).mapM fun tb => match tb.1 with | [v] => some (v, tb.2) | _ => none
+      pure (showTerms (polyFromHising hh (← parseTerms j) o))
   | ["polyspec", t, x] => pure1 do pure (showRat (polySpec (xOf (← parseRats x)) (← parseTerms t)))
   | ["lbnew", vt] => match vt? vt with
     | some vt => let d' : LBqm Rat := { vt, adj := [], off := 0 }; (d', "ok " ++ showLBqm d')
